@@ -73,14 +73,14 @@ def month_template(ctx):
     """the format template whose result load_from_json compiles into the per-month regex: pieces, arg field names"""
     b = ctx.facts.body('config::SmartCalcConfig::load_from_json')
     found = []
-    for bid, t in b.calls(r'Regex::new$'):
-        e = b.expr(t['args'][0])
+    for hb, t, args in model.deep_calls(ctx, b, r'Regex::new$', depth=1):     # also inside the closures of iterator chains
+        e = args[0]
         for x in walk(e):
             if x[0] == 'call' and re.search(r'fmt::Arguments::<.*>::new$|Arguments::new$|Arguments::new_v1$', x[1]):
                 tpl = strip(x[2][0])
                 argtxt = render(x[2][1]) if len(x[2]) > 1 else ''
                 if tpl[0] == 'const':
-                    fields = re.findall(r'Some\.0\.(long|short)\)', argtxt)
+                    fields = re.findall(r'\.(long|short)\)', argtxt)
                     if fields:
                         found.append((decode_fmt_template(tpl[3]), fields, t['loc']))
     if len(found) != 1:
